@@ -280,3 +280,6 @@ impl<'w, 's, T: Send + Sync + 'static> EntityEvent<'w, 's, T>
 }
 
 //-------------------------------------------------------------------------------------------------------------------
+
+#[cfg(bevy_cobweb_verif)]
+impl EventAccessTracker { pub(crate) fn verif_state(&self) -> (bool, usize) { (self.currently_reacting, self.prepared.len()) } }
